@@ -1044,3 +1044,127 @@ func E3BoundsExtrema(c *core.Ctx, r *core.Report) {
 	r.Floor("E3.derivative-roots", 4)
 	r.Floor("E3.arc-atan2", 2)
 }
+
+// E3LineHeights: the line metrics are component-wise maxima over the spans (C16, one clause).
+func E3LineHeights(c *core.Ctx, r *core.Report) {
+	r.Rule("E3.line-heights", "line.Heights returns four accumulators that start at 0 and are only ever updated by acc = math.Max(acc, E); when E comes from the 4-tuple FontFace.heights() the tuple position equals the accumulator's position (top, ascent, descent, bottom), and from the 2-tuple TextSpanObject.Heights() ascent feeds top/ascent and descent feeds descent/bottom; Text.Heights takes the ascent (position 1) of the first line and the descent (position 2) of the last")
+	p := c.MustPkg("")
+	info := p.TypesInfo
+	fd := core.MustFuncDecl(p, "line.Heights")
+	r.Func("canvas.line.Heights")
+	var accs []types.Object
+	if ret, ok := fd.Body.List[len(fd.Body.List)-1].(*ast.ReturnStmt); ok && len(ret.Results) == 4 {
+		for _, e := range ret.Results {
+			if id, ok := e.(*ast.Ident); ok {
+				accs = append(accs, core.ObjOf(info, id))
+			}
+		}
+	}
+	if len(accs) != 4 {
+		panic(core.Infra("line.Heights: final `return top, ascent, descent, bottom` not found"))
+	}
+	accIdx := func(o types.Object) int {
+		for i, a := range accs {
+			if a == o {
+				return i
+			}
+		}
+		return -1
+	}
+	names := []string{"top", "ascent", "descent", "bottom"}
+	// tuple definitions: ident -> (arity, position, callee name)
+	type tup struct {
+		arity, pos int
+		callee     string
+	}
+	tuples := map[types.Object]tup{}
+	ast.Inspect(fd.Body, func(n ast.Node) bool {
+		as, ok := n.(*ast.AssignStmt)
+		if !ok || len(as.Rhs) != 1 || len(as.Lhs) < 2 {
+			return true
+		}
+		call, ok := core.Unparen(as.Rhs[0]).(*ast.CallExpr)
+		if !ok {
+			return true
+		}
+		f := core.CalleeOf(info, call)
+		if f == nil {
+			return true
+		}
+		for i, l := range as.Lhs {
+			if id, ok := l.(*ast.Ident); ok && id.Name != "_" {
+				tuples[core.ObjOf(info, id)] = tup{len(as.Lhs), i, f.Name()}
+			}
+		}
+		return true
+	})
+	n := 0
+	ast.Inspect(fd.Body, func(nd ast.Node) bool {
+		as, ok := nd.(*ast.AssignStmt)
+		if !ok || as.Tok == token.DEFINE {
+			return true
+		}
+		for i, l := range as.Lhs {
+			id, ok := l.(*ast.Ident)
+			if !ok {
+				continue
+			}
+			ai := accIdx(core.ObjOf(info, id))
+			if ai < 0 || i >= len(as.Rhs) {
+				continue
+			}
+			n++
+			key := fmt.Sprintf("canvas.line.Heights|%s fold #%d", names[ai], n)
+			t := minmaxTree(info, as.Rhs[i])
+			if t == nil || t.op != "Max" || len(t.mixed) > 0 {
+				r.Fail("E3.line-heights", key, c.Pos(as.Pos()), fmt.Sprintf("the %s of the line is not updated by a pure math.Max fold: a span taller than the line would overlap its neighbours", names[ai]))
+				continue
+			}
+			self := false
+			bad := ""
+			for _, lf := range t.leaves {
+				if lid, ok := lf.(*ast.Ident); ok && accIdx(core.ObjOf(info, lid)) == ai {
+					self = true
+					continue
+				}
+				// which tuple value does the candidate use?
+				ast.Inspect(lf, func(m ast.Node) bool {
+					mid, ok := m.(*ast.Ident)
+					if !ok {
+						return true
+					}
+					tp, ok := tuples[core.ObjOf(info, mid)]
+					if !ok {
+						return true
+					}
+					switch {
+					case tp.arity == 4 && tp.callee == "heights" && tp.pos != ai:
+						bad = fmt.Sprintf("%s is folded with component %d (%s) of FontFace.heights()", names[ai], tp.pos, names[tp.pos])
+					case tp.arity == 2 && tp.callee == "Heights" && tp.pos != ai/2:
+						bad = fmt.Sprintf("%s is folded with the %s of the inline object", names[ai], []string{"ascent", "descent"}[tp.pos])
+					}
+					return true
+				})
+			}
+			if !self {
+				bad = "the fold forgets the accumulated value"
+			}
+			if bad != "" {
+				r.Fail("E3.line-heights", key, c.Pos(as.Pos()), bad+": the line's metrics no longer enclose all its spans")
+			} else {
+				r.OK("E3.line-heights", key, c.Pos(as.Pos()), "")
+			}
+		}
+		return true
+	})
+	r.Count("E3.line-height-folds", n)
+	r.Floor("E3.line-height-folds", 16)
+	// Text.Heights
+	th := core.MustFuncDecl(p, "Text.Heights")
+	norm := c.Norm(p, th)
+	if _, ok := core.AlphaSeq(norm, "_,$a,_,_:=$first.Heights($t.WritingMode)", "_,_,$d,_:=$last.Heights($t.WritingMode)", "return -$first.y+$a,$last.y+$d"); ok {
+		r.OK("E3.line-heights", "canvas.Text.Heights", c.Pos(th.Pos()), "ascent of the first line, descent of the last")
+	} else {
+		r.Fail("E3.line-heights", "canvas.Text.Heights", c.Pos(th.Pos()), "Text.Heights does not combine the ascent (2nd result) of the first line with the descent (3rd result) of the last line")
+	}
+}
